@@ -23,7 +23,7 @@ import ast
 from ..absint import Interp, mk, sd
 from ..model import AnchorError, norm, walk_no_nested
 from ..runstate import Explorer, RunStateBinding, show, ENGINE, IMPL, GHOSTS
-from ..util import cfg_of, call_attr, assigned_attrs, node_calls
+from ..util import local_single_defs, cfg_of, call_attr, assigned_attrs, node_calls
 
 EXPLANATION = __doc__
 
@@ -89,7 +89,9 @@ def run(ctx) -> None:
             g = cfg_of(f)
             for n in g.nodes:
                 for c in n.calls():
-                    if call_attr(c) in ("write", "write_batch") and "hwl" in norm(c.func):
+                    recv = c.func.value if isinstance(c.func, ast.Attribute) else None
+                    rtxt = norm(local_single_defs(f).get(recv.id, recv)) if isinstance(recv, ast.Name) else (norm(recv) if recv is not None else "")
+                    if call_attr(c) in ("write", "write_batch") and rtxt.endswith("hwl"):
                         n_w += 1
                         conds = [(norm(cx), pol) for cx, pol in g.conditions_at(n)]
                         inst = f"{f.short}: {norm(c.func)}(...) only with a run active"
